@@ -356,7 +356,12 @@ class ServiceClass:
                     f"(Warning - {status[1]})"
                 )
                 self.dimse.send_msg(rsp, cx_id)
-                continue
+                if rsp.Status == 0xB001:
+                    # Repository Query: matching reached the response limit, the
+                    #   only Warning that isn't the final response (PS3.4 C.6.4.4)
+                    continue
+
+                return
 
             if status[0] == STATUS_PENDING:
                 # If pending, `dataset` is the Identifier
